@@ -9,5 +9,6 @@ cp /repo/go.sum harness/go.sum
 mkdir -p lean/ShootVerif/Gen
 /tmp/shootverif-facts /repo > lean/ShootVerif/Gen/Facts.lean
 rm -f /tmp/shootverif-facts
+python3 -c "import sys; sys.path.insert(0, 'tools'); from vlib import enumgen; enumgen.regen_enum_facts()"
 (cd lean && lake build)
 echo setup-ok
